@@ -265,9 +265,97 @@ def run(ctx):
     embs = [EXACT_EMBS[i % 4] for i in range(n)]
     validate(ctx, progs, embs, "V")
 
+    noisy_family(ctx, 400 if quick else 6000)
     lazy.run(ctx, "C09", quick)
 
+def gen_noisy(rng):
+    def bars(n):
+        out = []
+        while len(out) < n:
+            b = rng.randint(0, 60) / 10.0 + rng.choice([0.0, 0.0, 0.05, 0.03, 1e-9])
+            out.append([b, b + rng.randint(2, 60) / 10.0 + rng.choice([0.0, 0.0, 0.01])])
+        return out
+    a, b = rng.choice([([1, 1], [-1, 1]), ([1, 1], [-1, 1]), ([1, 1], [1, 1]), ([2, 1], [-1, 2])])
+    return dict(A=bars(rng.randint(1, 5)), B=bars(rng.randint(1, 5)), a=a, b=b)
+
+
+def noisy_case(job, r):
+    """TraceCombF case: fixed-point records of the observed points, samples with interpolation certificates (exact rational arithmetic)"""
+    from ..fix import fix
+    import math
+    objs, fin = {}, 1
+    for nm in ("P", "Q", "R"):
+        depths = []
+        for d in r.get(nm, []):
+            pts = []
+            for x, y in d:
+                fx, fy = unfl(x), unfl(y)
+                if any(v != v or abs(v) == float("inf") for v in (fx, fy)):
+                    fin = 0; fx, fy = 0.0, 0.0
+                pts.append((Fraction(fx), Fraction(fy)))
+            depths.append(pts)
+        objs[nm] = depths
+    case = dict(a=job["a"], b=job["b"], raised=int("raised_in_op" in r), finite=fin, samples=[],
+                P=[[[fix(x), fix(y)] for x, y in d] for d in objs["P"]], Q=[[[fix(x), fix(y)] for x, y in d] for d in objs["Q"]],
+                R=[[[fix(x), fix(y)] for x, y in d] for d in objs["R"]])
+    if case["raised"] or not fin:
+        return case
+    def ev(o, k, x):
+        if k >= len(o) or not o[k] or x <= o[k][0][0] or x >= o[k][-1][0]:
+            if k < len(o) and o[k] and (x == o[k][0][0] or x == o[k][-1][0]):
+                return 0, (o[k][0][1] if x == o[k][0][0] else o[k][-1][1]) * 0      # landscapes vanish at the ends of their support
+            return 0, Fraction(0)
+        pts = o[k]
+        for i in range(len(pts) - 1):
+            (x0, y0), (x1, y1) = pts[i], pts[i + 1]
+            if x0 <= x <= x1 and x1 > x0:
+                return i + 1, y0 + (y1 - y0) * (x - x0) / (x1 - x0)
+        return 0, Fraction(0)
+    K = max(len(objs[n]) for n in objs)
+    for k in range(K):
+        xs = sorted({x for n in objs if k < len(objs[n]) for x, _ in objs[n][k]})
+        xs = xs + [(u + v) / 2 for u, v in zip(xs[:-1], xs[1:])]
+        for x in xs:
+            row = [k + 1, fix(x)]
+            for n in ("P", "Q", "R"):
+                i, v = ev(objs[n], k, x)
+                row += [i, fix(v)]
+            case["samples"].append(row)
+    return case
+
+
+def noisy_family(ctx, n):
+    rng = ctx.rng
+    jobs = [gen_noisy(rng) for _ in range(n)]
+    results, _ = run_driver_parallel("fcomb.py", jobs, nproc=12)
+    cases, idx = [], []
+    for i, (j, r) in enumerate(zip(jobs, results)):
+        if "P" not in r:
+            ctx.failure({"clause": "no-result", "detail": str(r)[:200]}, {"kind": "fcomb", "job": j}); continue
+        cases.append(noisy_case(j, r)); idx.append(i)
+    verdicts, st = tlc.run_batch("TraceCombF", cases, nproc=12, heap="3g")
+    ctx.extra.setdefault("trace_validation_runs", []).append(dict(label="V-decimal-coordinates", cases=len(cases), tlc_states=st["states"], wall_s=round(st["wall"], 1)))
+    for c, v, i in zip(cases, verdicts, idx):
+        ctx.count(1, key=("fcomb", str(jobs[i])), nontrivial=True)
+        if v[2] == "ok":
+            ctx.ok_trace()
+        elif v[2] == "machinery":
+            ctx.machinery_errors.append("TraceCombF: %s on %s" % (v[3], jobs[i]))
+        else:
+            ctx.failure({"clause": v[3], "op": "a*P + b*Q with decimal coordinates", "coefficients": [jobs[i]["a"], jobs[i]["b"]]}, {"kind": "fcomb", "job": jobs[i]})
+
+
 def replay(ctx, rec):
+    if rec["case"].get("kind") == "fcomb":
+        from ..common import run_driver
+        j = rec["case"]["job"]
+        r = run_driver("fcomb.py", {"jobs": [j]})["results"][0]
+        v, _ = tlc.run_batch("TraceCombF", [noisy_case(j, r)], nproc=1)
+        if v[0][2] == "ok":
+            ctx.ok_trace()
+        else:
+            ctx.failure({"clause": v[0][3]}, rec["case"])
+        return
     if rec["case"].get("kind") == "lazy":
         return lazy.replay(ctx, rec)
     c = rec["case"]
